@@ -550,7 +550,7 @@ def signals_to_torch_feat_dir(args=None):
     if options.manifest is not None:
         options.manifest.seek(0)
         for line in options.manifest:
-            utt2path.pop(line.strip(), None)
+            utt2path.pop(line.rstrip("\n"), None)  # ids may end in other whitespace
     if options.computer_config is None:
         computer = None
     else:
